@@ -127,6 +127,30 @@ func (t toolsim) Gen(prop, tier string, ts *sim.Tapes) *Case {
 	}
 	prog, _ := genHistory(ts, prop, tier, true)
 	c := &Case{Prop: prop, Engine: t.kind, Tier: tier, Seed: ts.Seed, Run: ts.Run, Prog: prog, Tapes: map[string][]uint64{}, Params: map[string]int{}}
+	if t.kind == "repairsim" && ts.Run%23 == 4 && ts.Run%2 == 0 {
+		// big-file scenario: more than one allocation step (16 MiB) of data with the default AllocSize, so that the
+		// file carries a whole preallocated step beyond its high-water mark; a few small commits afterwards vary
+		// which meta slot is the active one
+		bt := ts.Get("bigfile")
+		cfg := prog.Cfg
+		cfg.AllocSize, cfg.InitialMmapSize, cfg.Mlock, cfg.StrictMode = 0, 0, false, false
+		cfg.PageSize = []int{4096, 1024, 16384}[bt.Pick(2, 1, 1)]
+		big := &work.Txn{Mode: "update", End: "commit", Ops: []work.Op{{Kind: "mkb", Key: "big"}}}
+		for i := 0; i < 17+bt.Intn(3); i++ {
+			big.Ops = append(big.Ops, work.Op{Kind: "put", Path: []string{"big"}, Key: fmt.Sprintf("blob%02d", i), VLen: 1 << 20, VTag: uint32(800000 + i)})
+		}
+		steps := []work.Step{{Kind: "tx", Tx: big}}
+		for i := 0; i < bt.Intn(4); i++ {
+			steps = append(steps, work.Step{Kind: "tx", Tx: &work.Txn{Mode: "update", End: "commit", Ops: []work.Op{
+				{Kind: "put", Path: []string{"big"}, Key: fmt.Sprintf("more%02d", i), VLen: 200000 + 1000*i, VTag: uint32(810000 + i)}}}})
+		}
+		// the last commit raises the high-water mark as well (the two meta pages then disagree about it)
+		steps = append(steps, work.Step{Kind: "tx", Tx: &work.Txn{Mode: "update", End: "commit", Ops: []work.Op{
+			{Kind: "mkbi", Key: "last"}, {Kind: "nextseq", Path: []string{"last"}},
+			{Kind: "put", Path: []string{"last"}, Key: "tail", VLen: 300000, VTag: 820000}}}})
+		c.Prog = &work.Program{Cfg: cfg, Steps: steps}
+		c.Params["bigfile"] = 1
+	}
 	if t.kind == "compactsim" && ts.Get("swarm").Chance(1, 4) {
 		// the source is the history's content laid out by the independent encoder (a valid version-2 file the
 		// current writer would not produce: sparse pages, scattered ids, gaps, paged small buckets)
@@ -275,6 +299,11 @@ func (t toolsim) runRepair(c *Case, dir string, out *Outcome) {
 		}
 	}
 	want := e.Cur
+	if c.Params["bigfile"] == 1 {
+		if fi, err := os.Stat(src); err == nil {
+			out.probe("bigfile-source-MiB", int(fi.Size()>>20))
+		}
+	}
 	// every other source is a hot backup of the history's end state (Tx.CopyFile):
 	// a valid database whose meta slots do not follow the txid parity of commits
 	fromBackup := c.Run%2 == 1
@@ -648,7 +677,7 @@ func (t toolsim) rebuiltEqualsPersisted(path, dir string, cfg work.Config, fail 
 func init() {
 	register(&Info{Prop: "C15", Engine: toolsim{"compactsim"}, Level: "exploration", QuickS: 45, ThoroughS: 600,
 		RealStub: "real: bolt.Compact and `bbolt compact` (cmd/bbolt/command, in-process) on real files; no fault or schedule dimension (stated plainly): the simulator contributes the source population (end states of seeded histories)",
-		Rule:     "in a quarter of the runs the source file is the history's content re-laid out by the independent encoder dec/enc.go (a valid version-2 file the current writer would not produce); per seeded source (deep nesting, inline and paged buckets, empty buckets, empty and multi-page values, non-zero sequences, free pages) evaluations = one Compact per transaction-size limit in {0,1,2,7,13,97,4 tape-chosen in 20..5000,65536,2^40}, alternating library and CLI; the destination must decode cleanly and dump equal to the source and the model, pass Tx.Check; the source's SHA-256 is unchanged. distinct = distinct (source content, limit)",
+		Rule:     "one run index in 46 is the big-file scenario (more than 16 MiB of data with the default AllocSize, so the file carries a preallocated step beyond its high-water mark, and the last commits raise the high-water mark so that the two meta pages disagree about it); in a quarter of the runs the source file is the history's content re-laid out by the independent encoder dec/enc.go (a valid version-2 file the current writer would not produce); per seeded source (deep nesting, inline and paged buckets, empty buckets, empty and multi-page values, non-zero sequences, free pages) evaluations = one Compact per transaction-size limit in {0,1,2,7,13,97,4 tape-chosen in 20..5000,65536,2^40}, alternating library and CLI; the destination must decode cleanly and dump equal to the source and the model, pass Tx.Check; the source's SHA-256 is unchanged. distinct = distinct (source content, limit)",
 		Assume:   []string{"plain seeded model-based testing of a deterministic function; listed as such"}})
 	register(&Info{Prop: "C20", Engine: toolsim{"repairsim"}, Level: "exploration", QuickS: 45, ThoroughS: 600,
 		RealStub: "real: `bbolt surgery freelist abandon|rebuild` and `surgery revert-meta-page` from cmd/bbolt/command run in-process on real files; referee: independent decoder + model version table",
